@@ -38,7 +38,7 @@ def main():
             json.dump(res, open(path, 'w'), indent=1, sort_keys=True)
     lines = ['# Seeded defects x checks (quick tier, VERIF_SHARDS=2)', '',
              'rc 1 = VIOLATION reported, 0 = held, 2 = harness error. Own property first.', '',
-             '| seed | caught by its own property\\'s check | other checks that report a violation | first discrepancy of the own check |', '|---|---|---|---|']
+             '| seed | caught by the check of its own property | other checks that report a violation | first discrepancy of the own check |', '|---|---|---|---|']
     for seed in sorted(res):
         own = seed.split('-')[0]
         o = res[seed].get(own, {})
